@@ -205,6 +205,9 @@ func methodCallsWithPrefix(rel, recv, fn, prefix, coqName string) {
 func methodSource(rel, recv, fn, coqName string) {
 	p := load(rel)
 	fd := findMethod(p, recv, fn)
+	if recv == "" {
+		fd = findFunc(p, fn)
+	}
 	if fd == nil || fd.Body == nil {
 		out.Missing = append(out.Missing, rel+"."+recv+"."+fn)
 		return
